@@ -164,8 +164,9 @@ def optQvalChars (o : Option Str) : Bool :=
   | none => true
   | some s => qvalChars s
 
-/-- **the exact condition of the round trip of what the parser returns**
-(`Ural.Props.C19.Facebook.reparse_iff`; `reparse_of_parse_partial` is its "if" half): only what the
+/-- **the condition of the round trip of what the parser returns**
+(`Ural.Props.C19.Facebook.reparse_of_parse_partial`: sufficient, proved; observed to be necessary
+too on the real code, proved necessary only on one witness per kind): only what the
 builders do not escape and `urljoin` / `urlsplit` / `parse_qs` read as syntax —
 
 * a field that goes to the *path* of the canonical url is not `.` / `..` (`urljoin` resolves dot
